@@ -225,6 +225,30 @@ def check_case(case):
                 res.hits["scalar shift on multi-element sample shape"] += int(np.prod(ss) > 1)
             elif any(a == 1 and b_ > 1 for a, b_ in zip(shp, ss)) or len(shp) < len(ss):
                 res.hits["shift broadcast across sample axes"] += 1
+    # the same (N, shift) with the other complex width, back and forth in one process: results must not depend on call history
+    other = np.dtype("complex64") if dtype == np.complex128 else np.dtype("complex128")
+    zo = make_signal(N, other, ss, g.astype(other), case["rate"])
+    for k in (1, 2.5, -0.5):
+        q = (k * sr_in_unit / N) * unit
+        bq = F(float(q.value)) * hz(1 * unit) * N / srx
+        for order in ((zg, zo, zg), (zo, zg, zo)):
+            for zz in order:
+                o = pb.freq_shift(zz, q)
+                res.transitions += 1
+                if o.dtype != zz.dtype:
+                    res.violation("freq_shift|dtype depends on call history", f"after alternating complex widths the result dtype is "
+                                  f"{o.dtype} for {zz.dtype} input", case, {"k": k})
+                    break
+                M, keep = expected_matrices(N, bq, zero_variants(bq, dyadic))[0]
+                Xz = np.asarray(zz.data).astype(dft.CLD)
+                e = 0.0
+                for idx in np.ndindex(*ss):
+                    e = max(e, float(np.max(np.abs(np.asarray(o.data)[(slice(None),) + idx].astype(dft.CLD) - M @ Xz[(slice(None),) + idx]))))
+                if len(zero_variants(bq, dyadic)) == 1 and e > 64 * float(np.finfo(zz.dtype).eps) * max(N, 1):
+                    res.violation("freq_shift|precision depends on call history", f"after alternating complex widths the {zz.dtype} result "
+                                  f"is off by {e:.3g}", case, {"k": k})
+                    break
+    res.hits["alternating complex widths"] += 1
     # error contract
     zi = factory.make("IntensitySignal", np.ones((4, 2)), rate_name="1Hz", chan_bw=1 * u.Hz)
     for bad, exc, what in ((lambda: pb.freq_shift(zi, 1 * u.Hz), TypeError, "non-baseband"),
@@ -248,7 +272,7 @@ def main(argv=None):
     return report.run_check(
         PID, gen_cases=gen_cases, check_case=check_case, describe=describe,
         required_hits=["wrapped bins checked", "|shift| >= bandwidth (all zero)",
-                       "scalar shift on multi-element sample shape", "shift broadcast across sample axes", "error contract"],
+                       "scalar shift on multi-element sample shape", "shift broadcast across sample axes", "alternating complex widths", "error contract"],
         assumptions=["value budget 64*eps(dtype)*N*max|x|; the mixing phasor is computed in the signal's own precision",
                      "a shift within 1e-9 of a whole bin at a non-dyadic rate leaves the single boundary bin open"],
         argv=argv)
